@@ -11,6 +11,10 @@ EXIT_HARNESS = 2
 
 VERIF_ROOT = os.path.dirname(os.path.dirname(os.path.abspath(__file__)))
 REPO_ROOT = os.path.realpath(os.environ.get("VERIF_REPO", "/repo"))
+# evidence/ and replays/ go under VERIF_OUT (default: /verif itself); only the
+# seeded-change harness redirects it, so that parallel runs against scratch
+# worktrees never touch the evidence of the registered checks.
+OUT_ROOT = os.environ.get("VERIF_OUT") or VERIF_ROOT
 
 
 class HarnessError(Exception):
